@@ -70,6 +70,8 @@ var vShapes = []string{
 	"F", "S", "C", "aAF", "aw", "Dw", "DaF", "wF", "",
 	// stray words
 	"#aF", "a#F", "aF#", "w#pk", "wp#", "D#", "#D", "aS#k",
+	// -p without -w, alone or mixed with the other families
+	"aSp", "paS", "aFp", "Dp", "pD", "p", "pk", "Sp", "Cp",
 }
 
 var vAddArgs = []string{"always,exit", "exit,never", " task , always ", "user,always", "exclude,never"}
